@@ -5,6 +5,7 @@
   `op` correspondence engine); right-hand sides are the declarative predicates.
 -/
 import Coraza.Proofs.Op
+import Coraza.Model.IpMatch
 open Coraza Coraza.Op
 
 /-! ## string operators (argument already macro-expanded) -/
@@ -202,3 +203,34 @@ example : contains [0x62] [0x61, 0x62, 0x63] = true := by decide
 example : validateUrlEncoding [0x25, 0x34] = true ∧ validateUrlEncoding [0x25, 0x34, 0x31] = false := by decide
 example : parseRanges (splitOn 0x2c [0x31, 0x30, 0x2d, 0x31, 0x33, 0x2c, 0x33, 0x32]) = some [(10, 13), (32, 32)] := by decide
 example : pm [0x66, 0x6f, 0x6f, 0x20, 0x20, 0x62] [0x7a, 0x7a] = false ∧ pm [0x46, 0x6f] [0x78, 0x66, 0x4f] = true := by decide
+
+
+/-! ## @ipMatch: CIDR membership -/
+
+/-- C15_ipMatch_any: @ipMatch holds iff the value lies in one of the listed networks that parse
+    (entries that do not parse are skipped, as documented) -/
+theorem C15_ipMatch_any (arg v : Bytes) : ipMatch arg v = true ↔ ∃ n ∈ ipMatchNets arg, netContains n v = true := by
+  simp [ipMatch, List.any_eq_true]
+
+/-- C15_ipMatch_mapped: membership depends on the address only, not on its spelling — two texts
+    that denote the same 16-byte address (an IPv4 dotted quad and its IPv4-mapped IPv6 forms
+    ::ffff:a.b.c.d, ::ffff:hhhh:hhhh, 0:0:0:0:0:ffff:…) get the same answer from every network -/
+theorem C15_ipMatch_mapped (n : IPNet) (v1 v2 : Bytes) (f1 f2 : Bool) (ip : List UInt8)
+    (h1 : parseAddr v1 = some (f1, ip)) (h2 : parseAddr v2 = some (f2, ip)) :
+    netContains n v1 = netContains n v2 := by
+  simp [netContains, h1, h2]
+
+/-- a value that is not an IP address is in no network -/
+theorem C15_ipMatch_garbage (arg v : Bytes) (h : parseAddr v = none) : ipMatch arg v = false := by
+  simp [ipMatch, netContains, h]
+
+/-- the dotted quad and its mapped spellings denote the same address; /24 and /120 membership -/
+example : (parseAddr [0x31, 0x2e, 0x32, 0x2e, 0x33, 0x2e, 0x34]).map (·.2) =
+          (parseAddr [0x3a, 0x3a, 0x66, 0x66, 0x66, 0x66, 0x3a, 0x31, 0x2e, 0x32, 0x2e, 0x33, 0x2e, 0x34]).map (·.2) := by decide
+-- "1.2.3.0/24" contains "::ffff:1.2.3.4" and "1.2.3.200", not "1.2.4.4"
+example : ipMatch [0x31, 0x2e, 0x32, 0x2e, 0x33, 0x2e, 0x30, 0x2f, 0x32, 0x34]
+            [0x3a, 0x3a, 0x66, 0x66, 0x66, 0x66, 0x3a, 0x31, 0x2e, 0x32, 0x2e, 0x33, 0x2e, 0x34] = true := by decide
+example : ipMatch [0x31, 0x2e, 0x32, 0x2e, 0x33, 0x2e, 0x30, 0x2f, 0x32, 0x34] [0x31, 0x2e, 0x32, 0x2e, 0x34, 0x2e, 0x34] = false := by decide
+-- a bare address is its own /32: "1.2.3.4" contains "::ffff:102:304"
+example : ipMatch [0x31, 0x2e, 0x32, 0x2e, 0x33, 0x2e, 0x34]
+            [0x3a, 0x3a, 0x66, 0x66, 0x66, 0x66, 0x3a, 0x31, 0x30, 0x32, 0x3a, 0x33, 0x30, 0x34] = true := by decide
